@@ -108,6 +108,7 @@ Proof.
   destruct (_ || _); [reflexivity|]. destruct (_ >? blen v); [reflexivity|].
   rewrite (read_entries_ti _ v t1 t2).
   destruct (lift (read_entries _ (SL v t2) 4)) as [entries| |]; cbn [jbind]; try reflexivity.
+  destruct (negb (offsets_ok entries 0)); [reflexivity|].
   unfold parseJSONBObject, parseJSONBArray.
   rewrite (obj_loop_ti rec v t1 t2) by exact R. rewrite (arr_loop_ti rec v t1 t2) by exact R. reflexivity.
 Qed.
